@@ -23,7 +23,7 @@ pub fn write_script(k: usize) -> Vec<OutCall> {
         3 => vec![OutCall::WriteStr("a\nb".into()), OutCall::WriteStr("\r".into()), OutCall::WriteStr("\n".into())],
         4 => vec![OutCall::Uwrite("é₿\n".into())],
         5 => vec![OutCall::Fmt("p".into(), "q\n".into())],
-        6 => vec![OutCall::WriteStr("".into()), OutCall::WritelnStr("".into())],
+        6 => vec![OutCall::WriteStr("".into()), OutCall::WritelnStr("".into()), OutCall::FmtChar('!')],
         _ => vec![OutCall::WriteStr("tail\r\n".into()), OutCall::WriteStr("more".into())],
     }
 }
@@ -33,7 +33,7 @@ pub fn handler_scripts(k: usize) -> Vec<Vec<OutCall>> {
         0 => vec![],
         1 => vec![vec![OutCall::WriteStr("ok".into())]],
         2 => vec![vec![OutCall::WritelnStr("done".into()), OutCall::SetPrompt(3)], vec![OutCall::SetPrompt(1)]],
-        _ => vec![vec![OutCall::Fmt("a".into(), "b".into()), OutCall::WriteStr("\n".into())]],
+        _ => vec![vec![OutCall::Fmt("a".into(), "b".into()), OutCall::WriteStr("\n".into())], vec![OutCall::UwriteChar('#')], vec![OutCall::WriteStr("usage: x".into()), OutCall::FailParse]],
     }
 }
 
